@@ -54,7 +54,9 @@ type Exec struct {
 	safeCount map[string]int
 	errs      []string
 	paramObs  []Observable
+	topFrame  *Frame
 	names     map[string]int
+	countCache map[string]string
 	kinds     map[string]string // heap key -> leaf kind
 	leafTyp   map[string]types.Type
 	disabled  map[string]bool // Houdini: candidate invariants that failed
